@@ -87,6 +87,30 @@ Theorem finalize_first_wins : forall tmp i tail s t tr oc,
 Proof. exact finalize_winner. Qed.
 Print Assumptions finalize_first_wins.
 
+(* on-disk state machines, node.recover after snapshot i was recorded (live
+   install: load = true; replica start: load as decided by init_recover): at
+   EVERY crash cut of RecoverFromSnapshot ; Sync ; Shrink (source order
+   regenerated from node.go) the replica is restartable: the recorded snapshot
+   file is valid and either still the full image or the state machine is
+   durable up to i (otherwise the restart panics in
+   checkPartialSnapshotApplyOnDiskSM and entries up to i are lost).
+   Hypotheses: a reachable state (J), snapshot i recorded, its file the full
+   image (or the state machine already durable at i). *)
+Theorem ondisk_recover_restartable : forall s i load k,
+  J (ds_st s) -> st_rec (ds_st s) = i -> i <> 0 ->
+  (FullAt i (ds_st s) \/ i <= ds_smd s) ->
+  (load = false -> i <= ds_smv s) ->
+  let '(_, tr, _) := recover_prog s i load in
+  restart_okb (dstep (drun s (firstn k tr)) (DBase OCrash)) = true.
+Proof. exact ondisk_recover_restartable_proved. Qed.
+Print Assumptions ondisk_recover_restartable.
+
+(* reachable states satisfy J *)
+Theorem reachable_states_J : forall ord cs s t tr,
+  ord_ok ord -> J s -> do_cmds ord s cs = (t, tr) -> allowed_run s tr /\ t = run s tr /\ J t.
+Proof. exact cmds_ok. Qed.
+Print Assumptions reachable_states_J.
+
 (* not proved here: restart_state_ge_recorded_and_acked (needs C04/C08: the state
    machine recovered from the recorded snapshot plus the log), import_rerunnable
    (tools.ImportSnapshot is not modelled; DESIGN section 7, O7). *)
@@ -116,3 +140,20 @@ Example demo_loser :
   let s := fst (do_cmds ord_id init [CSave 5 2; CRecv 5 3]) in
   has_dir (DGen 5) (st_fs s) = true /\ has_dir (DFinal 5) (st_fs s) = true.
 Proof. vm_compute. auto. Qed.
+
+(* on-disk install of a received snapshot: 11 operations, restartable at every cut;
+   with Shrink before Sync (the order the theorem excludes) a cut is not *)
+Definition disk_demo : dstate :=
+  mkDS (fst (do_cmds ord_id init [CRecv 5 3; CApply 5])) 0 0.
+
+Example disk_demo_all_cuts :
+  let '(_, tr, _) := recover_prog disk_demo 5 true in
+  (length tr, forallb (fun k => restart_okb (dstep (drun disk_demo (firstn k tr)) (DBase OCrash))) (List.seq 0%nat 12%nat))
+  = (11%nat, true).
+Proof. vm_compute. reflexivity. Qed.
+
+Example disk_demo_shrink_first_not_restartable :
+  let '(_, shr, _) := do_cmd ord_id (ds_st disk_demo) (CShrink 5) in
+  let tr := DSmRecover 5 :: map DBase shr ++ [DSmSync] in
+  restart_okb (dstep (drun disk_demo (firstn 10 tr)) (DBase OCrash)) = false.
+Proof. vm_compute. reflexivity. Qed.
